@@ -349,7 +349,7 @@ func (vc *FnVC) enterLoop(h *ssa.BasicBlock, li *loopInfo, st *State) {
 			if _, ok := vc.compSort[c]; !ok {
 				continue
 			}
-			if !li.nonFresh[c] && strings.HasPrefix(vc.compSort[c], "(Array Int ") && c != "ML" {
+			if !li.nonFresh[c] && strings.HasPrefix(vc.compSort[c], "(Array Int ") && !strings.HasPrefix(c, "ML$") {
 				// inside the loop this component is only written at objects allocated by the loop
 				// itself (append, make, composite literals): everything that exists at the loop
 				// header keeps its content
@@ -612,8 +612,8 @@ func (vc *FnVC) loopModifies(li *loopInfo) (comps []string, all bool, keep []str
 			case *ssa.MapUpdate:
 				m := x.Map.Type().Underlying().(*types.Map)
 				mh, mv, _, _ := vc.mapComps(m)
-				set[mh], set[mv], set["ML"] = true, true, true
-				li.nonFresh[mh], li.nonFresh[mv], li.nonFresh["ML"] = true, true, true
+				set[mh], set[mv], set[mlOf(mh)] = true, true, true
+				li.nonFresh[mh], li.nonFresh[mv], li.nonFresh[mlOf(mh)] = true, true, true
 			case *ssa.Alloc, *ssa.MakeMap, *ssa.MakeSlice, *ssa.MakeClosure, *ssa.MakeChan:
 				set["alloc"] = true
 				if a, ok := x.(*ssa.Alloc); ok {
@@ -623,7 +623,7 @@ func (vc *FnVC) loopModifies(li *loopInfo) (comps []string, all bool, keep []str
 				}
 				if mm, ok := x.(*ssa.MakeMap); ok {
 					mh, mv, _, _ := vc.mapComps(mm.Type().Underlying().(*types.Map))
-					set[mh], set[mv], set["ML"] = true, true, true
+					set[mh], set[mv], set[mlOf(mh)] = true, true, true
 				}
 				if mc, ok := x.(*ssa.MakeClosure); ok {
 					for _, c := range vc.closureComps(mc) {
